@@ -1146,10 +1146,16 @@ func (m *MapPollard) ingest(delHashes []Hash, proof Proof) error {
 		sort.Sort(hnp)
 	}
 
-	// Calculate and ingest the proof.
-	proofPos, _ := ProofPositions(hnp.positions, m.NumLeaves, m.TotalRows)
-	if TreeRows(m.NumLeaves) != m.TotalRows && len(proofPos) != len(proof.Proof) {
-		proofPos = m.trimProofPos(proofPos, m.NumLeaves)
+	// Calculate and ingest the proof. The proof positions are calculated (and
+	// trimmed) with the rows needed for the current number of leaves as that's
+	// what trimProofPos expects. They're translated afterwards.
+	sortedTargets := copySortedFunc(proof.Targets, uint64Cmp)
+	proofPos, _ := ProofPositions(sortedTargets, m.NumLeaves, TreeRows(m.NumLeaves))
+	if TreeRows(m.NumLeaves) != m.TotalRows {
+		if len(proofPos) != len(proof.Proof) {
+			proofPos = m.trimProofPos(proofPos, m.NumLeaves)
+		}
+		proofPos = translatePositions(proofPos, TreeRows(m.NumLeaves), m.TotalRows)
 	}
 	for i, pos := range proofPos {
 		_, found := m.Nodes.Get(pos)
